@@ -340,6 +340,7 @@ type shutRun struct {
 	wdl           []interface{ SetWriteDeadline(time.Time) error }
 	protoNS       int64
 	protoCode     uint64
+	protoCodeAlt  uint64 // a second code accepted for the misbehaviour (0: none)
 	lastPkt       [2]*TapPacket
 	afterWG       sync.WaitGroup
 	deferred      [][2]string
@@ -883,7 +884,33 @@ func (s *shutRun) sealMisbehaving(victim int) []byte {
 	k := c.appKeys[d][c.phase[d]]
 	pn := uint64(c.largest[d][2] + 40)
 	var payload []byte
-	if s.sc.Code%2 == 0 {
+	// the highest connection ID the server has issued and the client has (certainly) been delivered: still in reserve
+	var ncid *TapFrame
+	if KMix(s.sc.Seed, 0x77)%3 == 0 && victim == 0 {
+		for _, p := range c.Packets {
+			if p.Dir != 1 || !p.Opened || len(s.w.Log[1][p.Ord].Delivered) == 0 || s.w.Log[1][p.Ord].Damaged {
+				continue
+			}
+			for i := range p.Frames {
+				if f := &p.Frames[i]; f.Name == "NEW_CONNECTION_ID" && len(f.CID) > 0 && (ncid == nil || f.Seq > ncid.Seq) {
+					ncid = f
+				}
+			}
+		}
+	}
+	if ncid != nil && ncid.Seq >= 2 && ncid.Seq < 60 {
+		// NEW_CONNECTION_ID for that sequence number with other contents: an error the library raises as a plain Go error
+		// and turns into a transport error while closing - every observer of the close must see the same cause
+		payload = []byte{0x18, byte(ncid.Seq), 0, byte(len(ncid.CID))}
+		for range ncid.CID {
+			payload = append(payload, 0xab)
+		}
+		for i := 0; i < 16; i++ {
+			payload = append(payload, 0xcd)
+		}
+		s.res.Probe("misbehaviour-conflicting-new-connection-id")
+		s.protoCode, s.protoCodeAlt = 0x0a, 0x01 // (RFC 9000 19.15 says PROTOCOL_VIOLATION; the library reports INTERNAL_ERROR)
+	} else if s.sc.Code%2 == 0 {
 		id := uint64(4000 + d) // a stream initiated by the sender, far beyond any limit of this workload
 		payload = []byte{0x0a, byte(0x40 | id>>8), byte(id), 1, 0x55}
 		s.protoCode = 0x04
@@ -1782,7 +1809,7 @@ func (s *shutRun) judgeCause(k int, v *shutView, ccs []shutCC, tc *TapConn) {
 		case k == 1 && code == 2 && s.trClosed[1] && D >= s.trCloseNS[1][0] && (v.complete == 0 || v.complete >= s.trCloseNS[1][0]):
 			// Transport.Close refuses the handshakes that are still in flight (that is what the code does; allowed: a
 			// CONNECTION_CLOSE is due for a handshake the server will not complete)
-		case sc.Cause == "proto" && k == sc.Side && s.protoNS > 0 && code == s.protoCode && D >= s.protoNS:
+		case sc.Cause == "proto" && k == sc.Side && s.protoNS > 0 && (code == s.protoCode || (s.protoCodeAlt != 0 && code == s.protoCodeAlt)) && D >= s.protoNS:
 		case k == 0 && code == 0x0d && sc.Cfg.ChainLen >= 24:
 			// a certificate chain larger than the client's crypto buffer: a genuine, locally detected transport error
 		default:
